@@ -3,24 +3,36 @@
 #include "auv.hh"
 namespace auv {
 int rc_run(const char *name, size_t ndraws, PropFn fn, void *ctx, uint64_t *out) {
-    (void)name;
     std::vector<uint64_t> failing;
     // full-width draws regardless of rapidcheck's size parameter (inRange/arbitrary collapse at
     // small sizes); shrinking towards 0 still applies to each draw.
     auto gen = rc::gen::container<std::vector<uint64_t>>(
         ndraws, rc::gen::resize(rc::kNominalSize, rc::gen::arbitrary<uint64_t>()));
-    const auto result = rc::detail::checkTestable([&] {
-        auto v = *gen;
-        bool ok = fn(ctx, v.data(), v.size());
-        if (!ok) failing = v;
-        RC_ASSERT(ok);
-    });
-    if (result.template is<rc::detail::SuccessResult>()) return 0;
-    if (result.template is<rc::detail::FailureResult>()) {
-        // re-run prop on the minimal counterexample so that 'failing' holds the shrunk draws
-        for (size_t i = 0; i < ndraws && i < failing.size(); ++i) out[i] = failing[i];
-        return 1;
+    // rapidcheck keeps a record per successful case, so one long run costs memory proportional to the number of cases; the
+    // requested number of cases (RC_PARAMS max_success) is therefore spent in chunks, each with its own derived seed.
+    const auto base = rc::detail::configuration().testParams;
+    const long total = base.maxSuccess;
+    const long chunk = 20000;
+    long done = 0; uint64_t k = 0;
+    while (done < total) {
+        auto params = base;
+        params.maxSuccess = int(total - done < chunk ? total - done : chunk);
+        params.seed = base.seed + k * 0x9e3779b97f4a7c15ULL;
+        rc::detail::TestMetadata md; md.id = name; md.description = name;
+        const auto result = rc::detail::checkTestable([&] {
+            auto v = *gen;
+            bool ok = fn(ctx, v.data(), v.size());
+            if (!ok) failing = v;
+            RC_ASSERT(ok);
+        }, md, params);
+        if (result.template is<rc::detail::FailureResult>()) {
+            // the last failing invocation is the minimal (shrunk) counterexample
+            for (size_t i = 0; i < ndraws && i < failing.size(); ++i) out[i] = failing[i];
+            return 1;
+        }
+        if (!result.template is<rc::detail::SuccessResult>()) return 2;
+        done += params.maxSuccess; ++k;
     }
-    return 2;
+    return 0;
 }
 }  // namespace auv
